@@ -12,6 +12,9 @@ from __future__ import annotations
 
 import os
 import shutil
+import signal
+import subprocess
+import time
 
 from vlib import cli, common, fsmon
 from vlib.common import pmap, rng, Inconclusive
@@ -58,6 +61,11 @@ def faults(quick: bool):
     out.append(("archive:unknown-type-in-archived-import", ("files", dict(arch, **{"arch/v1/lib/lib.yml": C09.VALID_LIB + "Broken: !record\n  fields:\n    x: NoSuchType\n"}), "versions:\n  v0: ../v0\n  v1: ../arch/v1/main\n")))
     out.append(("archive:garbage-in-archived-import", ("files", dict(arch, **{"arch/v1/lib/lib.yml": C09.VALID_LIB, "arch/v1/lib/zz.yml": "]]]: [\n"}), "versions:\n  v1: ../arch/v1/main\n  v0: ../v0\n")))
     out.append(("archive:bad-manifest-in-archived-import", ("files", dict(arch, **{"arch/v1/lib/lib.yml": C09.VALID_LIB, "arch/v1/lib/_package.yml": "namespace: Lib\nbogus: 1\n"}), "versions:\n  v0: ../v0\n  v1: ../arch/v1/main\n")))
+    vecs = C09.VALID_MAIN + "Vs: !record\n  fields:\n    samples: %s\nPv: !protocol\n  sequence:\n    v: Vs\n    w: %s\n"
+    for nm, (o, n) in {"vector-fixed-to-dynamic": ("float*4", "float*"), "vector-dynamic-to-fixed": ("float*", "float*4"), "vector-length-changed": ("float*4", "float*5"),
+                       "array-fixed-to-dynamic-rank": ("float[2,3]", "float[,]"), "array-rank-to-fixed": ("float[,]", "float[2,3]")}.items():
+        out.append(("evolution:%s-field" % nm, ("files", {"main/model.yml": vecs % (repr(n), "int"), "v0/model.yml": vecs % (repr(o), "int")})))
+        out.append(("evolution:%s-step" % nm, ("files", {"main/model.yml": vecs % ("int", repr(n)), "v0/model.yml": vecs % ("int", repr(o))})))
     out.append(("evolution:missing-version-dir", ("manifest", "versions:\n  v0: ../v0\n  v1: ../nowhere\n")))
     out.append(("evolution:duplicate-label", ("manifest", "versions:\n  v0: ../v0\n  v0: ../v0\n")))
     out.append(("manifest:unknown-key", ("manifest_append", "bogus: 1\n")))
@@ -129,6 +137,11 @@ def apply_fault(base, outcfg, fault):
     elif kind == "args":
         args = fault[1]
     return args
+
+
+def watch_turn(fid, cfg, st) -> bool:
+    """which failing cases are also run under --watch: a fixed share chosen from the case identity"""
+    return int(common.sha(fid, cfg, st)[:6], 16) % 6 == 0
 
 
 def run(ctx):
@@ -209,6 +222,52 @@ def run(ctx):
             elif evs:
                 ctx.violation("write-event:%s" % fid.split(":")[0], "%s: failed run logged %d write/remove events (first: %s)" % (what, len(evs), evs[0]),
                               {"case_dir": base, "events": evs[:10]})
+                ok = False
+        if ok and p.rc != 0 and not args and watch_turn(fid, cfg, st):
+            # the same failing package under `generate --watch`: the first generation fails in the same way and must not touch the output either
+            evlog2 = evlog + ".watch"
+            outp = evlog + ".watch.out"
+            env = common.yardl_env(home, evlog2)
+            with open(outp, "wb") as fo:
+                wp = subprocess.Popen([common.build_yardl(), "generate", "--watch"], cwd=pkgdir, env=env, stdout=fo, stderr=subprocess.STDOUT, stdin=subprocess.DEVNULL, start_new_session=True)
+                t0 = time.monotonic()
+                ended = False
+                while time.monotonic() - t0 < 30:
+                    if any(e.get("ev") == "regen.end" for e in common.read_events(evlog2)):
+                        ended = True
+                        break
+                    if wp.poll() is not None:
+                        break
+                    time.sleep(0.02)
+                time.sleep(0.1)
+                if wp.poll() is None:
+                    try:
+                        os.killpg(wp.pid, signal.SIGTERM)
+                    except ProcessLookupError:
+                        pass
+                    try:
+                        wp.wait(timeout=5)
+                    except subprocess.TimeoutExpired:
+                        os.killpg(wp.pid, signal.SIGKILL)
+                        wp.wait()
+            after2 = fsmon.snapshot(base)
+            evs2 = [e for e in common.read_events(evlog2) if e.get("ev") in ("file.write", "file.remove")]
+            for f in (evlog2, outp):
+                if os.path.exists(f):
+                    os.unlink(f)
+            ctx.ev()
+            ctx.count("watch-mode-runs")
+            ctx.case((fid, cfg, st, "watch"))
+            d2 = fsmon.diff(before, after2)
+            if not ended and wp.returncode is None:
+                raise Inconclusive("%s: the watcher's first generation did not end within 30 s wall" % what)
+            if d2:
+                ctx.violation("fs-changed:watch:%s:%s" % (fid.split("@")[-1] if "@" in fid else fid.split(":")[0], d2[0][0]),
+                              "%s: `generate --watch` on the failing package changed the file system: %s" % (what, d2[:6]), {"case_dir": base, "diff": d2[:50]})
+                ok = False
+            elif evs2:
+                ctx.violation("write-event:watch:%s" % fid.split(":")[0], "%s: `generate --watch` on the failing package logged %d write/remove events (first: %s)" % (what, len(evs2), evs2[0]),
+                              {"case_dir": base, "events": evs2[:10]})
                 ok = False
         if ok:
             shutil.rmtree(base, ignore_errors=True)
